@@ -58,6 +58,11 @@ TEXT["C06"] = dict(engine="verus+kani",
          "(precondition of clone_with_ttl_decrement discharged from the invariant); the key is exactly (name,type,DO,CD); zero lifetime is not stored. "
          "get_expiry == min TTL is checked only bounded (7 section shapes, symbolic TTLs) and assumed by the proof.",
    note="Assumed: time model (ns view), lock = invariant, vstd HashMap specs + key-model axiom for the derived Hash/Eq of CacheKey, derived Clone structural. expire() (garbage collection) not under contract.")
+TEXT["C14"] = dict(engine="verus+kani",
+   technique="Verus: header round-trip lemma over the encoder's and decoder's own contracts (bit_vector), decoder output re-encodable (pkt_wf), parser termination/pointer handling; Kani BOUNDED harnesses on the real push_compressed_domain / push_prefix",
+   level="PARTIAL. Deductive (unbounded): every flag/opcode/rcode bit written by serialise_with_size is read back unchanged by get_dns (lemma_header_roundtrip over flag1_of/flag2_of and the decoder's bit tests); every message the decoder returns satisfies the encoder's preconditions; get_domain_into terminates and only follows in-range pointers. "
+         "BOUNDED (Kani, not a proof): for names of <= 2 one-octet labels and two consecutive pushes (same name, suffix, sibling, high offset), any base offset 0..=65535: no panic, each emitted pointer < 16384, points backwards inside the message to the right label; names first written at offset >= 16384 are written out again.",
+   note="NOT decided: decode(encode(m)) == m for whole messages of any size (needs an unbounded invariant of the LinkedList suffix tree, outside Verus' accepted subset and far beyond Kani's reach). Defect D14 (offsets >= 16384 reused) was found here, replayed on the real code and fixed (c3f5e63).")
 TEXT["C15"] = dict(engine="verus",
    technique="Verus contract on DnsRouteHandler::handle_query with nested loop invariants (ghost index of the best suffix), Domain::ends_with against a case-insensitive whole-label spec",
    level="Unbounded deductive proof for all route tables and query names: if any (route,suffix) matches, the outcome is that of a route holding a longest matching suffix "
